@@ -92,6 +92,19 @@ MUTANTS = [
     ("iter-clone-reversed-contents", "src/iter.rs",
      "for (dst, src) in iter.array.as_mut_slice().iter_mut().zip(self.as_slice()) {",
      "for (dst, src) in iter.array.as_mut_slice().iter_mut().zip(self.as_slice().iter().rev()) {", ["C06"]),
+    # blind spots named by the independent audit (large skip counts / indices / lengths, late faults)
+    ("nth-chunked-drop-leaks-beyond-16", "src/iter.rs",
+     "        unsafe {\n            ptr::drop_in_place(self.array.get_unchecked_mut(skipped));\n        }\n\n        self.next()",
+     "        let capped = skipped.start..cmp::min(skipped.end, skipped.start + 16);\n        unsafe {\n            ptr::drop_in_place(self.array.get_unchecked_mut(capped));\n        }\n\n        self.next()", ["C03"]),
+    ("remove-high-index-off-by-one", "src/sequence.rs",
+     "        ptr::copy(dst.add(1), dst, N::USIZE - idx - 1);",
+     "        ptr::copy(dst.add(1), dst, N::USIZE - idx - 1 - (idx >= 12 && idx + 2 < N::USIZE) as usize);", ["C03"]),
+    ("pop-back-large-n-wrong-offset", "src/sequence.rs",
+     "            let last = ptr::read(whole.as_ptr().add(Sub1::<N>::USIZE) as _);",
+     "            let last = ptr::read(whole.as_ptr().add(Sub1::<N>::USIZE - (N::USIZE >= 64) as usize) as _);", ["C03"]),
+    ("builder-extend-stops-counting-at-48", "src/internal.rs",
+     "        destination.zip(source).for_each(|(dst, src)| {\n            dst.write(src);\n            *position += 1;\n        });\n    }\n\n    /// Returns true if the write position equals the array size\n    #[inline(always)]\n    pub const fn is_full(&self) -> bool {\n        self.position == N::USIZE\n    }\n\n    /// Creates a mutable iterator for writing to the array elements.\n    ///\n    /// You MUST increment the position value (given as a mutable reference) as you iterate\n    /// to mark how many elements have been created.\n    ///\n    /// ```\n    /// #[cfg(feature = \"internals\")]\n    /// # {\n    /// # use generic_array::{GenericArray, internals::IntrusiveArrayBuilder, typenum::U5};",
+     "        let mut written = 0usize;\n        destination.zip(source).for_each(|(dst, src)| {\n            dst.write(src);\n            written += 1;\n            if written <= 48 || written == N::USIZE {\n                *position = written;\n            }\n        });\n    }\n\n    /// Returns true if the write position equals the array size\n    #[inline(always)]\n    pub const fn is_full(&self) -> bool {\n        self.position == N::USIZE\n    }\n\n    /// Creates a mutable iterator for writing to the array elements.\n    ///\n    /// You MUST increment the position value (given as a mutable reference) as you iterate\n    /// to mark how many elements have been created.\n    ///\n    /// ```\n    /// #[cfg(feature = \"internals\")]\n    /// # {\n    /// # use generic_array::{GenericArray, internals::IntrusiveArrayBuilder, typenum::U5};", ["C07", "C04"]),
     ("revert-fix-nth", "src/iter.rs",
      "        let skipped = self.index..next_index;\n        self.index = next_index;\n\n        unsafe {\n            ptr::drop_in_place(self.array.get_unchecked_mut(skipped));\n        }",
      "        unsafe {\n            ptr::drop_in_place(self.array.get_unchecked_mut(self.index..next_index));\n        }\n        self.index = next_index;", ["C05"]),
